@@ -4,7 +4,7 @@
 # report it, and undoes the change straight afterwards.
 P="$1"; shift
 IDS="$*"
-[ -n "$IDS" ] || IDS="C01 C02 C03 C04 C05 C06 C07 C08 C09 C10 C11 C12 C13 C14 C16 C17 C18 C19 C20"
+[ -n "$IDS" ] || IDS="C01 C02 C03 C04 C05 C06 C07 C08 C09 C10 C11 C12 C13 C14 C15 C16 C17 C18 C19 C20"
 cd /repo || exit 2
 if ! git diff --quiet; then echo "/repo is dirty, refusing"; exit 2; fi
 git apply "$P" || { echo "patch does not apply"; exit 2; }
